@@ -61,7 +61,10 @@ func init() {
 		ID:   "C01",
 		Rule: "rapid-generated histories (all shapes, no faults); non-trivial = at least one successful Invoke executing >=3 user functions in a case with >=2 of {scope depth>=2, decorator, group, named, optional, Export, As, nested object}; distinct by FNV-64 of the canonical IR",
 		Gen: func(t *rapid.T, thorough bool) *Case {
-			return GenCase(t, scale(DefaultKnobs(), thorough))
+			k := DefaultKnobs()
+			k.TwoPhase = true
+			k.MaxOps = 26
+			return GenCase(t, scale(k, thorough))
 		},
 		Check: func(c *Case, st *Stats) *Failure {
 			tr := Run(c, RunOpts{})
